@@ -166,6 +166,18 @@ package rapid
 
 // the runtime-done bookkeeping of one invocation: rtDoneBooked(c) relates the flag on the context to the ghost count
 //@ spec rtDoneBooked(execCtx *rapidContext) bool = since(EvInvokeRuntimeDone, EvInvokeStart) <= 1 && (since(EvInvokeRuntimeDone, EvInvokeStart) >= 1 ==> execCtx.invokeRuntimeDoneSent)
+// C04: the wait for the extensions is skipped only when no extension at all is registered (internal ones count)
+//@ func (*rapidContext).HasActiveExtensions
+//@   requires c != nil
+//@   ensures [every-registered-extension-counts] delta(AgentCount) <= 1 && (r0 ==> extEnabled() && delta(AgentCount) == 1 && lastret(AgentCount) > 0) && (!r0 ==> !extEnabled() || (delta(AgentCount) == 1 && lastret(AgentCount) <= 0))
+
+// C18: a restore request does not queue behind the other handlers: nothing is locked before the restore itself begins
+//@ event AnyMutexLock = call sync.(*Mutex).Lock
+//@ event RestoreHandled = call rapid.handleRestore
+//@ func (*rapidContext).HandleRestore
+//@   requires restore != nil
+//@   ensures [does-not-wait-for-other-handlers] delta(RestoreHandled) == 1 && (delta(AnyMutexLock) >= 1 ==> first(RestoreHandled) < first(AnyMutexLock))
+
 //@ func sendInvokeStartLogEvent
 //@   requires execCtx != nil
 //@   ensures [a-new-invocation-has-no-runtime-done-yet] since(EvInvokeRuntimeDone, EvInvokeStart) == 0
